@@ -9,32 +9,43 @@ Arguments N.sub : simpl never. Arguments N.ltb : simpl never. Arguments N.eqb : 
 Arguments N.leb : simpl never.
 
 Definition decodable (fs : list descriptor) (st : scte) : Prop :=
-  normal fs st /\ s_tid st = 252 /\ s_encrypted st = false /\ Forall wf_descriptor fs.
+  normal fs st /\ s_tid st = 252 /\ s_encrypted st = false /\ Forall wf_descriptor fs /\ timed_cmd (s_cmd st).
 
-Lemma wf_logical_cmd c : normal_cmd c -> wf_command (logical_cmd c) /\ supported_cmd (logical_cmd c).
+Lemma wf_logical_stime h p : (h = true -> p < 8589934592) -> wf_stime (logical_stime h p).
+Proof. destruct h; cbn; intros H; [apply H; reflexivity|exact I]. Qed.
+
+Lemma wf_logical_cmd c : normal_cmd c -> wf_command (logical_cmd c).
 Proof.
   destruct c as [|h p|i]; cbn [normal_cmd logical_cmd].
-  - intros _. split; exact I.
-  - intros [-> Hp]. cbn [logical_stime wf_command wf_stime supported_cmd]. split; [assumption|discriminate].
+  - intros _. exact I.
+  - intros Hp. cbn [wf_command]. apply wf_logical_stime. assumption.
   - destruct i as [eid cancel out prog imm has pts comps hasdur dur auto up an ae].
     unfold normal_insert, logical_mode.
     cbn [i_event_id i_cancel i_out i_program i_immediate i_has_pts i_pts i_components i_has_duration i_duration
          i_auto_return i_unique_program_id i_avail_num i_avails_expected].
-    intros (He & Hb). destruct cancel; cbn [wf_command supported_cmd]; [split; [exact He|exact I]|].
+    intros (He & Hb). destruct cancel; cbn [wf_command]; [exact He|].
     destruct (Hb eq_refl) as (Ht & Hc & Hd & Hup & Han & Hae). clear Hb.
     unfold wf_insert_body. cbn [ib_mode ib_break ib_unique_program_id ib_avail_num ib_avails_expected].
     assert (Hbrk : match (if hasdur then Some (auto, dur) else None) with Some (_, d) => d < 8589934592 | None => True end).
     { destruct hasdur; [apply Hd; reflexivity|exact I]. }
     destruct prog, imm; cbn [wf_mode].
-    + repeat split; try assumption; discriminate.
-    + destruct (Ht eq_refl eq_refl) as [-> Hp]. cbn [logical_stime wf_stime]. repeat split; try assumption; discriminate.
-    + destruct (Hc eq_refl) as [Hcs Hl]. repeat split; try assumption; try discriminate.
+    + repeat split; assumption.
+    + repeat split; try assumption. apply wf_logical_stime. apply Ht; reflexivity.
+    + destruct (Hc eq_refl) as [Hcs Hl]. repeat split; try assumption.
       * unfold is_bytes. apply Forall_map. eapply Forall_impl; [|exact Hcs]. intros c [H _]. exact H.
       * rewrite len_map'. assumption.
-    + destruct (Hc eq_refl) as [Hcs Hl]. repeat split; try assumption; try discriminate.
+    + destruct (Hc eq_refl) as [Hcs Hl]. repeat split; try assumption.
       * apply Forall_map. eapply Forall_impl; [|exact Hcs]. intros c [H1 H2]. cbn [fst snd].
-        destruct (H2 eq_refl) as [-> Hp]. split; assumption.
+        split; [assumption|]. apply wf_logical_stime. apply H2. reflexivity.
       * rewrite len_map'. assumption.
+Qed.
+Lemma supported_logical_cmd c : timed_cmd c -> supported_cmd (logical_cmd c).
+Proof.
+  destruct c as [|h p|i]; cbn [timed_cmd logical_cmd supported_cmd]; [auto| |].
+  - intros ->. discriminate.
+  - destruct i as [eid cancel out prog imm has pts comps hasdur dur auto up an ae]. unfold logical_mode.
+    cbn [i_cancel i_program i_immediate i_has_pts i_pts i_components]. destruct cancel; [auto|]. cbn [ib_mode].
+    intros H. destruct prog, imm; try discriminate. rewrite (H eq_refl eq_refl eq_refl). discriminate.
 Qed.
 
 Lemma wf_logical_seg d : normal_desc d -> wf_descriptor (logical_seg d).
@@ -70,9 +81,9 @@ Qed.
 
 Lemma supported_logical fs st : decodable fs st -> supported (logical fs st).
 Proof.
-  intros (Hn & Htid & Henc & Hwfs). pose proof (lengths_ok fs st Hn) as (_ & _ & _ & Hsl).
+  intros (Hn & Htid & Henc & Hwfs & Htimed). pose proof (lengths_ok fs st Hn) as (_ & _ & _ & Hsl).
   pose proof Hn as (_ & Hpv & Hea & Hcw & Htier & Hpts & Hcpts & Hct & Hcmd & Hds & Hother & Hfs & Hlen).
-  destruct (wf_logical_cmd _ Hcmd) as [Hwc Hsc].
+  pose proof (wf_logical_cmd _ Hcmd) as Hwc. pose proof (supported_logical_cmd _ Htimed) as Hsc.
   unfold supported, wf_decode, logical, logical0 in *.
   cbn [with_crc si_sap si_enc_alg si_pts_adj si_tier si_cmd si_descs si_table_id si_encrypted si_pointer] in *.
   rewrite <- cmd_data_ser by assumption.
